@@ -99,42 +99,43 @@ const (
 )
 
 type State struct {
-	ID      int
-	Heap    map[int]Value
-	Types   map[int]types.Type // object id -> allocated type (for reflection / debugging); shared, append-only per id
-	NextObj int
-	Frames  []*Frame
-	PC      []*smt.Term
-	Implied []*smt.Term // facts implied by PC (forced decisions); used for syntactic lookups only
-	Nondets []NondetRec
-	Occ     map[string]int
-	Obs     []Observation
-	Failed  []string // tags of assertions that fail for every input on this path
-	Aux     map[auxKey]int
-	Globals map[*ssa.Global]int
-	Panic   *PanicInfo
+	ID        int
+	Heap      map[int]Value
+	Types     map[int]types.Type // object id -> allocated type (for reflection / debugging); shared, append-only per id
+	NextObj   int
+	Frames    []*Frame
+	PC        []*smt.Term
+	Implied   []*smt.Term // facts implied by PC (forced decisions); used for syntactic lookups only
+	Nondets   []NondetRec
+	Occ       map[string]int
+	Obs       []Observation
+	Failed    []string // tags of assertions that fail for every input on this path
+	Aux       map[auxKey]int
+	Globals   map[*ssa.Global]int
+	Panic     *PanicInfo
 	PanicHold int // while > 0 and the stack is at least this deep, a deferred call is running during a panic: execute it, do not unwind
-	Status  Status
-	Why     string
-	Steps   int
+	Status    Status
+	Why       string
+	Steps     int
 
 	// decision script for re-execution of the current instruction after a fork
 	script    []int
 	scriptPos int
 	decisions []int
 	// undo log since the start of the current instruction
-	undo      []undoRec
-	markPC    int
-	markND    int
-	markObs   int
-	markNext  int
-	markImp   int
-	logging   bool
-	Depth     int // number of forks on this path
-	StopDepth   int   // callee merging: stop when the frame stack gets shallower than this
+	undo        []undoRec
+	markPC      int
+	markND      int
+	markObs     int
+	markTrace   int
+	markNext    int
+	markImp     int
+	logging     bool
+	Depth       int // number of forks on this path
+	StopDepth   int // callee merging: stop when the frame stack gets shallower than this
 	MergeResult Value
 	Steps0      int
-	ClockLast *smt.Term
+	ClockLast   *smt.Term
 	ClockFrozen bool
 	// thread mode (threads.go)
 	Threads        []*Thread
@@ -147,6 +148,7 @@ type State struct {
 	NeedSchedule   bool
 	NoPreemptNext  bool
 	Locks          map[auxKey]lockState
+	SchedTrace     []int8         // thread id of every completed synchronisation event, in global order (thread mode)
 	BlockedNow     *threadBlocked // time.Now() returns the previous reading (harness primitive vclockFreeze)
 }
 
@@ -169,6 +171,7 @@ func (st *State) clone() *State {
 	n.PC = append([]*smt.Term(nil), st.PC...)
 	n.Implied = append([]*smt.Term(nil), st.Implied...)
 	n.Nondets = append([]NondetRec(nil), st.Nondets...)
+	n.SchedTrace = append([]int8(nil), st.SchedTrace...)
 	n.Obs = append([]Observation(nil), st.Obs...)
 	n.Failed = append([]string(nil), st.Failed...)
 	n.Occ = make(map[string]int, len(st.Occ))
@@ -217,6 +220,7 @@ func (st *State) beginInstr() {
 	st.markPC = len(st.PC)
 	st.markND = len(st.Nondets)
 	st.markObs = len(st.Obs)
+	st.markTrace = len(st.SchedTrace)
 	st.markNext = st.NextObj
 	st.markImp = len(st.Implied)
 	st.decisions = st.decisions[:0]
@@ -259,6 +263,7 @@ func (st *State) rollback() {
 	st.PC = st.PC[:st.markPC]
 	st.Nondets = st.Nondets[:st.markND]
 	st.Obs = st.Obs[:st.markObs]
+	st.SchedTrace = st.SchedTrace[:st.markTrace]
 	st.NextObj = st.markNext
 	st.Implied = st.Implied[:st.markImp]
 }
